@@ -10,6 +10,7 @@ CH[list]="C09 C11 C12 C13 C14 C15"
 CH[vector]="C10 C11 C12 C13 C14 C15"
 CH[hash]="C05 C06 C07 C11 C12 C13 C14 C15"
 CH[tree]="C01 C02 C03 C04 C11 C12 C13 C14 C15"
+CH[alt]="C01 C03 C04 C05 C06 C07 C11 C12 C13 C14 C15"
 for d in seeded/neutral/*-R*/; do
   id=$(basename $d); k=${id%-R*}
   s=/var/tmp/qneutral-$id
